@@ -59,6 +59,10 @@ func init() {
 				Quick:    p("facts", 2, "rules", 1, "body", 1, "arity", 1, "vars", 1, "expr", 0, "kinds", 5, "varfacts", 0, "varrules", 0),
 				Thorough: p("facts", 2, "rules", 1, "body", 2, "arity", 1, "vars", 2, "expr", 0, "kinds", 5, "varfacts", 0, "varrules", 0),
 				Covers:   []string{"run-ok", "derived"}},
+			{Pkg: "datalog", Func: "VerifC05Fixpoint",
+				Quick:    p("facts", 2, "rules", 1, "body", 1, "arity", 2, "vars", 2, "expr", 0, "kinds", 1, "varfacts", 0, "varrules", 0),
+				Thorough: p("facts", 2, "rules", 1, "body", 2, "arity", 2, "vars", 2, "expr", 0, "kinds", 1, "varfacts", 0, "varrules", 0),
+				Covers:   []string{"run-ok", "derived"}},
 		},
 		Assumptions: append([]string{
 			"bounds (quick/thorough): initial facts 2/3, rules 1/2, body predicates <= 2, arity <= 1/2, <= 2 distinct variables, <= 1 integer comparison per rule; predicate names and constants fully symbolic 64-bit; run limits generous; deadline never reached (timeouts are C11)",
@@ -98,7 +102,7 @@ func init() {
 		Prop:    "C20",
 		Harness: []string{"c20_entropy.go"},
 		Entries: []EntrySpec{
-			{Pkg: "biscuit", Func: "VerifC20Entropy", Quick: p(), Thorough: p(), Covers: []string{"returned", "failing-source", "good-source", "verified"}, Solver: "cvc5"},
+			{Pkg: "biscuit", Func: "VerifC20Entropy", Quick: p(), Thorough: p(), Covers: []string{"returned", "failing-source", "good-source", "verified"}},
 		},
 		Assumptions: append([]string{
 			"the supplied source delivers k symbolic bytes (k = 0..32, every value) in one read, byte-by-byte or in 7-byte chunks, then returns an error; or never fails",
